@@ -31,6 +31,10 @@ fn kind_static(k: &str) -> &'static str {
 
 pub fn run(rep: &mut Report) {
     let prop = rep.cfg.prop;
+    if !fuzzops::table().iter().any(|e| e.prop == prop) {
+        rep.extra.insert("fuzz_stage".into(), json!("not applicable: the property has no entry in the fuzz table (C16 needs the two-profile worker)"));
+        return;
+    }
     let bin = match std::env::var("VCHECK_FUZZ_BIN") {
         Ok(b) if std::path::Path::new(&b).exists() => b,
         _ => {
@@ -38,16 +42,12 @@ pub fn run(rep: &mut Report) {
             return;
         }
     };
-    if !fuzzops::table().iter().any(|e| e.prop == prop) {
-        rep.extra.insert("fuzz_stage".into(), json!("not applicable: the property has no entry in the fuzz table (C16 needs the two-profile worker)"));
-        return;
-    }
     let t = Instant::now();
     let jobs: u64 = std::env::var("VCHECK_FUZZ_JOBS").ok().and_then(|v| v.parse().ok()).unwrap_or_else(|| std::thread::available_parallelism().map(|n| n.get() as u64).unwrap_or(4).min(16));
     // fixed work per job; histories and polynomials cost ~50x a single operation (exact model after every step)
     let heavy = matches!(prop, "C04" | "C12" | "C17" | "C18");
-    let default_runs = if heavy { 100_000 } else { 1_500_000 };
-    let runs: u64 = std::env::var("VCHECK_FUZZ_RUNS").ok().and_then(|v| v.parse().ok()).map(|r: u64| if heavy { (r / 15).max(1000) } else { r }).unwrap_or(default_runs);
+    let default_runs = if heavy { 300_000 } else { 1_500_000 };
+    let runs: u64 = std::env::var("VCHECK_FUZZ_RUNS").ok().and_then(|v| v.parse().ok()).map(|r: u64| if heavy { (r / 5).max(1000) } else { r }).unwrap_or(default_runs);
     let budget_s: u64 = std::env::var("VCHECK_FUZZ_WATCHDOG_S").ok().and_then(|v| v.parse().ok()).unwrap_or(3600);
     let work = format!("{}/engine/fuzz/work/{}", verif_dir(), prop);
     let _ = std::fs::remove_dir_all(&work);
